@@ -251,6 +251,8 @@ C10_THEOREMS = ['C10_no_deadlock', 'C10_no_infinite_run', 'C10_every_call_return
                 'C10_write_on_a_closed_writer_returns_no_responses']
 def _conc_stats(c, o):
     t = c.split()
+    if not t or t[0] != 'conc':
+        return ['domain=%s' % (t[0] if t else '?')]
     ks = ['workers=%s' % t[1], 'goroutines=%s' % t[8], 'delaymode=%s' % ('none' if t[6] == '0' else 'random' if t[6] == '1' else 'targeted')]
     if ' c' in c: ks.append('with-close')
     if ' r' in c: ks.append('with-rotate')
@@ -264,8 +266,8 @@ CONC_RULE = ('conc: 1-4 goroutines with scripts of 1-4 calls (Write of 1-3 recor
              'extracted protocol model, which searches for a model run with that history (set of compatible model states closed under Protocol.succs); a history the model cannot produce is a mismatch. '
              'distinct = distinct (scenario, observation) pairs')
 PROPS['C09'] = dict(
-    id='C09', domains=['conc'], feed_impl=('conc',),
-    n=dict(quick=dict(conc=300), thorough=dict(conc=6000)),
+    id='C09', domains=['conc', 'wcont'], feed_impl=('conc',), no_model={'wcont': True},
+    n=dict(quick=dict(conc=300, wcont=150), thorough=dict(conc=6000, wcont=5000)),
     theorems=[('Properties.C09', C09_THEOREMS), ('Properties.SyncSkeleton', ['sync_skeleton_is_the_modelled_one'])],
     kinds={'panic', 'torn-file', 'lost-or-duplicated', 'misplaced', 'nil-but-written', 'batch-not-contiguous', 'batch-split-across-files'},
     stats=_conc_stats,
